@@ -111,10 +111,32 @@ def recursive_cases():
     return out
 
 
+def inline_cases():
+    """the struct under test is the INLINE type of a property that carries an object-level default (the default mentions every member);
+    the builder of that inner struct must still demand its required members"""
+    out = []
+    sp = {(m["type"], m["state"]): m for m in specs()}
+    combos = [[("string", "req")], [("string", "req"), ("integer", "opt")], [("enum_ab", "req"), ("integer", "dflt")], [("vec", "req"), ("str_max2", "req")],
+              [("ref", "req"), ("bool", "opt")], [("integer", "req"), ("string", "req"), ("map", "opt")], [("nullable", "req")], [("set", "req"), ("string", "opt")]]
+    for combo in combos:
+        ms = [sp[k] for k in combo]
+        base = mk(ms)
+        T = dict(base["doc"]["definitions"]["T"])
+        T["default"] = {n: m["vals"][0] for n, m in zip(NAMES, ms)}
+        for req_outer in (False, True):
+            outer = {"type": "object", "properties": {"t": T, "z": INT}}
+            if req_outer:
+                outer["required"] = ["t"]
+            c = dict(base, id=base["id"].replace("builder[", "builder-inline[") + ("|req" if req_outer else ""), doc={"definitions": {"P": P, "Outer": outer}}, target="Outer", tname="OuterT")
+            out.append(c)
+    return out
+
+
 def cases(tier, seed):
     sp = specs()
     out = [mk([m]) for m in sp]
     out += recursive_cases()
+    out += inline_cases()
     if tier == "quick":
         core = [m for m in sp if m["type"] in ("string", "str_max2", "enum_ab", "vec", "map", "ref") and True]
         pairs = [(a, b) for a in core[::2] for b in core[1::3]]
@@ -132,9 +154,9 @@ def cases(tier, seed):
     return res
 
 
-def field_map(scan):
+def field_map(scan, tname="T"):
     root = (scan or {}).get("mods", {}).get("", [])
-    st = [it for it in root if it.get("kind") == "struct" and it["name"] == "T" and it["body"]["style"] == "named"]
+    st = [it for it in root if it.get("kind") == "struct" and it["name"] == tname and it["body"]["style"] == "named"]
     if not st:
         return None
     out = {}
@@ -148,7 +170,8 @@ def field_map(scan):
 
 
 def decorate(wc, a):
-    fm = field_map(a.get("scan"))
+    tn = wc.placed.get("tname", "T")
+    fm = field_map(a.get("scan"), tn)
     if fm is None:
         return {}
     tb = wire.traits_by_type(a.get("scan"))
@@ -157,7 +180,7 @@ def decorate(wc, a):
     lines.append('        match kind {')
     lines.append('            "build" => Some(vs::guard(|| {')
     lines.append('                let spec: Value = serde_json::from_str(arg).unwrap();')
-    lines.append('                let mut b = T::builder();')
+    lines.append('                let mut b = %s::builder();' % tn)
     raw_ok = {}
     for wname, (ident, ty) in sorted(fm.items()):
         traits = tb.get(ty.replace(" ", ""), set())
@@ -168,14 +191,14 @@ def decorate(wc, a):
             lines.append('                    if let Some(raw) = v.get("raw").and_then(|r| r.as_str()) { b = b.%s(raw.to_string()); } else' % ident)
         lines.append('                    { let x: %s = serde_json::from_value(v["val"].clone()).expect("convertible sample"); b = b.%s(x); }' % (ty, ident))
         lines.append('                }')
-    lines.append('                let r: ::std::result::Result<T, _> = b.try_into();')
+    lines.append('                let r: ::std::result::Result<%s, _> = b.try_into();' % tn)
     lines.append('                match r { Ok(t) => json!({"ok": true, "w": serde_json::to_value(&t).unwrap()}), Err(e) => json!({"ok": false, "err": e.to_string()}) }')
     lines.append('            })),')
     lines.append('            "identity" => Some(vs::guard(|| {')
-    lines.append('                let t: T = match serde_json::from_str(arg) { Ok(t) => t, Err(e) => return json!({"ok": false, "de_err": e.to_string()}) };')
+    lines.append('                let t: %s = match serde_json::from_str(arg) { Ok(t) => t, Err(e) => return json!({"ok": false, "de_err": e.to_string()}) };' % tn)
     lines.append('                let orig = serde_json::to_value(&t).unwrap();')
-    lines.append('                let b: builder::T = t.into();')
-    lines.append('                let r: ::std::result::Result<T, _> = b.try_into();')
+    lines.append('                let b: builder::%s = t.into();' % tn)
+    lines.append('                let r: ::std::result::Result<%s, _> = b.try_into();' % tn)
     lines.append('                match r { Ok(t2) => json!({"ok": true, "w": serde_json::to_value(&t2).unwrap(), "orig": orig}), Err(e) => json!({"ok": false, "err": e.to_string()}) }')
     lines.append('            })),')
     lines.append('            _ => None,')
@@ -259,7 +282,7 @@ def execute(cases_, tier, seed):
                                             features=feats, items=[i.get("sequence", i.get("instance")) for i in items]))
     res.evaluations = res.transitions
     res.extra.update({"operation_sequences": n_seq, "identity_roundtrips": n_id})
-    res.samples = [{"id": c["id"], "T": c["doc"]["definitions"]["T"]} for c in cases_[:: max(1, len(cases_) // 4)]][:4]
+    res.samples = [{"id": c["id"], "T": c["doc"]["definitions"].get("T") or c["doc"]["definitions"].get("Outer")} for c in cases_[:: max(1, len(cases_) // 4)]][:4]
     res.bound = "tier=%s: %d structs of <=3 members over %d member specs; all setter subsets x <=3 values" % (tier, len(cases_), len(specs()))
     res.assumptions = ["convertible sample values are built through from_value::<FieldTy> so no Rust literals are generated"]
     if not res.violations and (len(cases_) > 20 and (n_seq < 300 or n_id < 30)):   # a subject that breaks everything is reported through its violations, not as vacuity
@@ -285,7 +308,7 @@ def run_with_sequences(placed, tier, cache):
         if ok:
             deco = decorate(wc, a)
             if deco:
-                bcs.append(batch.Case(wc.key, a["pretty"], {"T": ["de"]}, extra=deco["extra"]))
+                bcs.append(batch.Case(wc.key, a["pretty"], {p.get("tname", "T"): ["de"]}, extra=deco["extra"]))
         wcs.append(wc)
     out = []
     if bcs:
@@ -304,7 +327,7 @@ def run_with_sequences(placed, tier, cache):
             for s in seqs:
                 probes.append((wc.key, "@x", "build", json.dumps(s)))
                 obj = {k: v["val"] for k, v in s.items() if "val" in v}
-                probes.append((wc.key, "T", "de", json.dumps(obj)))
+                probes.append((wc.key, p.get("tname", "T"), "de", json.dumps(obj)))
             # identity: objects with all members set to each value
             for s in seqs:
                 if all("val" in v for v in s.values()) and all(m["name"] in s for m in p["members"] if m["state"] == "req"):
